@@ -392,6 +392,26 @@ func runC03(r *Run) {
 	if len(afterFailure) > 0 {
 		r.Violate("message-after-failure", sig, "after the read failed with %v, further reads returned %d message(s), the first with %d bytes %q (terminal %s %s)", rerr, len(afterFailure), len(afterFailure[0].Data), afterFailure[0].Data[:min(len(afterFailure[0].Data), 24)], ex.Terminal, ex.What)
 	}
+	if ex.Terminal == "violation" {
+		// the stream contained no (well-formed) Close frame before the violation:
+		// the failure must not be reported as a close by the peer, and a Close
+		// frame sent in answer must carry an error status, not a peer-chosen one
+		var ce websocket.CloseError
+		if errors.As(rerr, &ce) {
+			r.Violate("violation-reported-as-close", sig, "the read failed with %v although the stream has no Close frame before its first violation (%s)", rerr, ex.What)
+		}
+		for _, cf := range closes {
+			code := -1
+			if len(cf.Payload) >= 2 {
+				code = int(cf.Payload[0])<<8 | int(cf.Payload[1])
+			}
+			switch code {
+			case 1002, 1003, 1007, 1008, 1009, 1011:
+			default:
+				r.Violate("violation-answered-with-wrong-close", sig, "the library answered the violation %s with a Close frame of status %d (payload %x)", ex.What, code, cf.Payload)
+			}
+		}
+	}
 	switch ex.Terminal {
 	case "close":
 		var ce websocket.CloseError
